@@ -34,7 +34,8 @@ class DataSim(Sim):
     RUN_TIMEOUT = 20
     PROBES = ["reiteration_after_full_epoch", "reiteration_after_abandon", "len_during_iteration", "getitem_during_iteration", "transform_none",
               "transform_tagging", "transform_raises", "n_smaller_than_batch", "n_not_multiple_of_batch", "split_shuffle_real_rng",
-              "split_shuffle_stub_perm", "split_no_shuffle", "split_with_validation", "one_hot", "exhausted_polled_again", "three_epochs", "next_interrupted_then_new_epoch"]
+              "split_shuffle_stub_perm", "split_no_shuffle", "split_with_validation", "one_hot", "exhausted_polled_again", "three_epochs", "next_interrupted_then_new_epoch",
+              "loader_over_non_contiguous_array", "earlier_batches_held_while_fetching", "one_hot_small_ints", "one_hot_strings", "one_hot_floats", "one_hot_bools", "split_beyond_32768_samples"]
     RULE = ("one run = 1-2 loaders and a seeded interleaving of iter/next/abandon/restart/full-epoch/len/index events plus dataset splits under real "
             "and stubbed shuffles; distinct = hash of (loader geometry class, order of events); non-trivial = a loader was re-iterated after a "
             "partial or full pass, or a shuffled split ran")
@@ -58,7 +59,8 @@ class DataSim(Sim):
             b = rng.choice([1, 2, 3, 4, 5, 8])
             return {"k": "loader", "lid": len(st.Ld), "n": n, "b": b, "d": rng.randint(1, 3), "tf": rng.choice(["none", "none", "identity", "tag", "raise"]),
                     "raise_at": rng.randint(0, 3), "kind": rng.choice(["array", "list"]),
-                    "exc": rng.choice(["SimBodyError", "SimBodyError", "IndexError", "ValueError", "KeyError", "MemoryError"])}
+                    "exc": rng.choice(["SimBodyError", "SimBodyError", "IndexError", "ValueError", "KeyError", "MemoryError"]),
+                    "layout": rng.choice(["C", "C", "C", "cols", "every2nd", "reversed", "F"]), "hold": rng.random() < 0.5}
         if getattr(st, "pending", None):
             return st.pending.pop(0)
         lid = rng.choice(sorted(st.Ld))
@@ -79,10 +81,14 @@ class DataSim(Sim):
         if r < 0.80:
             return {"k": "getitem", "lid": lid, "j": rng.randint(0, 4)}
         if r < 0.93:
-            n = rng.choice([0, 1, 4, 5, 10, 11, 20])
+            n = rng.choice([0, 1, 4, 5, 10, 11, 20]) if rng.random() < 0.997 else rng.choice([300, 40000, 70000])      # rarely beyond 2^15 / 2^16 samples
             return {"k": "split", "n": n, "test": rng.choice([0.0, 0.2, 0.25, 0.5, 1.0, 0.33]), "val": rng.choice([None, None, 0.0, 0.2, 0.5, 1.0]),
                     "shuffle": rng.random() < 0.7, "perm": rng.choice(["real", "real", "identity", "reverse", "rotate", "swap"])}
-        return {"k": "one_hot", "labels": [rng.choice([3, 7, -1, 10, 0]) for _ in range(rng.randint(1, 8))]}
+        kind = rng.choice(["ints", "ints", "small_ints", "small_ints", "floats", "strings", "bools"])
+        pool = {"ints": [3, 7, -1, 10, 0], "small_ints": list(range(-3, 5)), "floats": [0.5, -1.0, 2.0, 1.0, 0.0], "strings": ["cat", "dog", "bird", "ant", "Zebra", "b", "a10", "a9"],
+                "bools": [True, False]}[kind]
+        sub = rng.sample(pool, rng.randint(1, min(4, len(pool))))
+        return {"k": "one_hot", "labels": [rng.choice(sub) for _ in range(rng.randint(1, 8))], "kind": kind, "as": rng.choice(["array", "array", "list"])}
 
     # ------------------------------------------------------------------ events
     def apply(self, st, ev):
@@ -94,7 +100,19 @@ class DataSim(Sim):
         n, b, d = ev["n"], ev["b"], ev["d"]
         X = np.arange(n * d, dtype=np.float32).reshape(n, d) + 1000.0 * ev["lid"]
         y = np.arange(n, dtype=np.float32) * 10 + 7
-        L = {"X": X, "y": y, "n": n, "b": b, "tf": ev["tf"], "calls": [], "raise_at": ev["raise_at"], "epochs": 0}
+        layout = ev.get("layout", "C") if ev["kind"] == "array" else "C"
+        if layout == "cols":
+            X = np.repeat(X, 2, axis=1)[:, ::2]                 # a column selection of a wider table (strided, same values)
+        elif layout == "every2nd":
+            X = np.repeat(X, 2, axis=0)[::2]                    # every second sample of a bigger array
+        elif layout == "reversed":
+            X = X[::-1].copy()[::-1]                            # negative strides
+        elif layout == "F":
+            X = np.asfortranarray(X)
+        if layout != "C":
+            st.probes["loader_over_non_contiguous_array"] += 1
+        L = {"X": np.array(X, copy=True), "y": y.copy(), "n": n, "b": b, "tf": ev["tf"], "calls": [], "raise_at": ev["raise_at"], "epochs": 0,
+             "hold": bool(ev.get("hold")), "held": []}
         Xs, ys = (X, y) if ev["kind"] == "array" else ([row for row in X], [v for v in y])
 
         def transform(loader, xb, yb):
@@ -133,6 +151,16 @@ class DataSim(Sim):
         if xb.shape != wantX.shape or yb.shape != wanty.shape or not np.array_equal(xb, wantX) or not np.array_equal(yb, wanty):
             st.fail("C18.batch", f"{where}: batch {j} of loader {lid} (n={n}, batch_size={b}) is not rows [{j * b}, {(j + 1) * b}) of X and y "
                     f"(got X{list(xb.shape)} first={xb.reshape(-1)[:1].tolist()}, y={yb.reshape(-1)[:4].tolist()})", loader=lid)
+        if L.get("hold"):
+            # the program collects the batches of a pass before using them: batches handed out earlier must stay what they were
+            for (j0, item0) in L["held"]:
+                x0, y0 = item0[-2], item0[-1]
+                if not np.array_equal(np.asarray(x0, dtype=np.float32), L["X"][j0 * b:(j0 + 1) * b]) or not np.array_equal(np.asarray(y0, dtype=np.float32), L["y"][j0 * b:(j0 + 1) * b]):
+                    st.fail("C18.batch", f"{where}: batch {j0} of loader {lid}, handed out earlier and still held by the program, changed when batch {j} was fetched "
+                            "(features and labels no longer belong together)", loader=lid)
+            if L["held"]:
+                st.probes["earlier_batches_held_while_fetching"] += 1
+            L["held"] = (L["held"] + [(j, item if isinstance(item, tuple) else tuple(item))])[-3:]
         if L["tf"] in ("identity", "tag", "raise"):
             if not L["calls"]:
                 st.fail("C18.transform", f"{where}: a batch was yielded without passing through the transform", loader=lid)
@@ -272,6 +300,8 @@ class DataSim(Sim):
     def _ev_split(self, st, ev):
         data = st.SG.data
         n = ev["n"]
+        if n > 32768:
+            st.probes["split_beyond_32768_samples"] += 1
         X = np.arange(n * 2, dtype=np.float32).reshape(n, 2)
         y = np.arange(n, dtype=np.float32) * 2 + 1        # pair rule: y == X[:,0] + 1
         test, val, shuffle = ev["test"], ev["val"], ev["shuffle"]
@@ -335,8 +365,9 @@ class DataSim(Sim):
     def _ev_one_hot(self, st, ev):
         data = st.SG.data
         labels = ev["labels"]
+        st.probes["one_hot_" + ev.get("kind", "ints")] += 1
         try:
-            enc = np.asarray(data.one_hot_encode(np.array(labels)))
+            enc = np.asarray(data.one_hot_encode(np.array(labels) if ev.get("as", "array") == "array" else list(labels)))
         except Exception as e:
             st.fail("C18.one_hot", f"one_hot_encode raised {type(e).__name__}: {e}")
         st.probes["one_hot"] += 1
